@@ -7,15 +7,17 @@ from . import paths as P
 
 EXPLANATION = (
     "Decides structural necessary conditions of C14 from MIR: (R1) in the actor's action handlers every call that reads or "
-    "writes entries, subscribes or reconciles is dominated by the success edge of an open gate (get_mut / ensure_open / replica / "
-    "replica_if_syncing), the receivers of the reconciliation and remote-insert calls derive from replica_if_syncing, and "
-    "Replica::new is called in actor.rs only inside the two gate functions (phrased over effects, so a new action is covered); "
-    "(R2) the gates: get_mut errs iff absent, replica_if_syncing returns Ok only with the document present and sync=true; "
-    "(R3) handle counting by finite path evaluation of open_with/close against the table written from the property text "
-    "(vacant: handles=1, sync=opts.sync, callback once; occupied: handles+1, sync := sync or opts.sync, callback not called; "
-    "close: vacant => true untouched, occupied => handles-1, removed and true iff it reached 0); (R4) mutating actions are "
-    "awaited inline, spawn_local occurs only for the streaming reads, shutdown flushes then closes then replies with the store. "
-    "NOT decided: behaviour with several concurrent clients beyond the single-consumer loop."
+    'writes entries, subscribes or reconciles is dominated by the success edge of an open gate (get_mut / ensure_open / '
+    'replica / replica_if_syncing), the receivers of the reconciliation and remote-insert calls derive from '
+    'replica_if_syncing, and Replica::new is called in actor.rs only inside the two gate functions (phrased over effects, '
+    'so a new action is covered); (R2) the gates evaluated on {absent, open/sync off, open/sync on}: '
+    'get_mut/replica/ensure_open succeed iff open, replica_if_syncing iff open and syncing, the Replica is built on that '
+    "document's state; (R3) handle counting by abstract evaluation of open_with/close (map entry API and direct API "
+    'modelled) against the table written from the property text (vacant: handles=1, sync=opts.sync, callback once; '
+    'occupied: handles+1, sync := sync or opts.sync, callback not called; close: vacant => true untouched, occupied => '
+    'handles-1, removed and true iff it reached 0); (R4) mutating actions are awaited inline, spawn_local occurs only for '
+    'the streaming reads, shutdown flushes then closes then replies with the store. NOT decided: behaviour with several '
+    'concurrent clients beyond the single-consumer loop.'
 )
 ASSUMPTIONS = ["the action loop is the only consumer of the action channel", "tracing macro expansions are effect-free"]
 
